@@ -2,6 +2,7 @@ package main
 
 import (
 	"fmt"
+	"os"
 	"strings"
 
 	txfile "github.com/elastic/go-txfile"
@@ -113,6 +114,12 @@ func runSimLock(rep *Report) {
 				}
 				f, res := open(o)
 				d.SetFault(nil)
+				if os.Getenv("VH_DEBUG") != "" {
+					img := d.Contents()
+					m0, m1 := txfile.VerifDecodeMeta(img[:84]), txfile.VerifDecodeMeta(img[ps:int(ps)+84])
+					fmt.Fprintf(os.Stderr, "open(fault %s) flags=%d maxsize=%d => %s\n  slot0 valid=%v txid=%d max=%d de=%d me=%d\n  slot1 valid=%v txid=%d max=%d de=%d me=%d  len=%d\n", kind, o.Flags, o.MaxSize, res,
+						m0.Valid, m0.Txid, m0.MaxSize, m0.DataEnd, m0.MetaEnd, m1.Valid, m1.Txid, m1.MaxSize, m1.DataEnd, m1.MetaEnd, len(img))
+				}
 				trace = append(trace, fmt.Sprintf("open(fault %s)=>%s", kind, res))
 				rep.Steps++
 				if res == "ok" {
